@@ -190,6 +190,25 @@ end Octave
 namespace Octave
 open List
 
+/-! ### soundness of `validatePath` for every recognised shape of the walk -/
+
+/-- what an accepted path must look like: no '..' component, no symlink in any component including the last
+(except the system links the code deliberately lets through), allowed extension -/
+def Confined (fs : Fs) (fuel : Nat) (ex : Exempt) (allowed : List Str) (cwd : List Str) (s : Str) : Prop :=
+  dotdot ∉ (parsePath s).tail ∧
+  noSymlinkComponent fs fuel ex (absParts cwd s) ∧
+  extAllowed allowed (pathName (parsePath s)) = true
+
+theorem validatePath_sound (fs : Fs) (fuel : Nat) (cfg : WalkCfg) (ex : Exempt) (allowed cwd : List Str) (s : Str)
+    (order : List Stage) (hall : Stage.dotdot ∈ order ∧ Stage.symlink ∈ order ∧ Stage.ext ∈ order)
+    (hcwd : ∀ c ∈ cwd, normalName c)
+    (hguard : (cfg.useExists = false ∧ cfg.guarded = false) ∨ (fs.WF ∧ noDangling fs fuel (absParts cwd s)))
+    (h : validatePath fs fuel cfg ex allowed cwd s order = .ok ()) :
+    Confined fs fuel ex allowed cwd s := by
+  have hst := validatePath_ok_stage h
+  have hdd := dotdotStage_ok (hst _ hall.1)
+  exact ⟨hdd, symlinkStage_ok (absParts_normal hcwd hdd) hguard (hst _ hall.2.1), extStage_ok (hst _ hall.2.2)⟩
+
 /-! ### finite tables: a decidable well-formedness check, and `noDangling` over the finitely many prefixes -/
 
 theorem ofList_wf {l : List (List Str × Node)} (h : wfCheck l = true) : (Fs.ofList l).WF := by
